@@ -217,7 +217,7 @@ package maintenance
 // Every configured database is upgraded, in order, and a failed upgrade is reported -
 // never swallowed: initialisation that returns nil has run the migration of all of them
 // without an error (the stream-key bookkeeping starts afresh for each database).
-//@ func UpgradeAll [C18]
+//@ func UpgradeAll [C18,C19]
 //@   flag checks=-index,-assert
 //@   modifies everything
 //@   ensures every-database-upgraded: result == nil ==> dbUpgrades == old(dbUpgrades) + len(config)
